@@ -22,11 +22,23 @@ def reg_gfull():
     return r
 
 
+def reg_gfull_sis():
+    r = V.Registry()
+    for c in gillespie_full.sis_contracts():
+        r.add(c)
+    r.lib_install.append(gillespie_full.install)
+    return r
+
+
 def gfull_jobs(tier):
     jobs = util.jobs_for(reg_gfull, tier=tier, quals={'Gillespie_SIR'})
     if tier == 'quick':
         jobs = [j for j in jobs if j[0][1] in ('list-unweighted', 'list-norecovered-unweighted')]
-    return jobs
+    # Gillespie_SIS with return_full_data=True (lists of infection / recovery times per node, ghost index maps for the entries)
+    sis = util.jobs_for(reg_gfull_sis, tier=tier, quals={'Gillespie_SIS'})
+    if tier == 'quick':
+        sis = [j for j in sis if j[0][1] == 'list-unweighted']
+    return jobs + sis
 
 
 def run(tier, seed):
